@@ -189,5 +189,6 @@ func genDeep(r *rand.Rand) Case {
 		cs.Cons.Gap = 1 + r.Intn(200)
 		cs.Cons.Yields = r.Intn(2)
 	}
+	genCloser(r, &cs)
 	return cs
 }
